@@ -90,13 +90,22 @@ def rollback_fact(fn: ast.FunctionDef, inner_call: str):
             return ast.unparse(node.func.value)
         return None
 
+    whole = {n.targets[0].id for n in ast.walk(fn) if isinstance(n, ast.Assign) and len(n.targets) == 1 and isinstance(n.targets[0], ast.Name)
+             and call_name(n.value) == "get_shape_memo"}   # names holding all four dictionaries
     for node in ast.walk(fn):
         if isinstance(node, ast.Assign) and len(node.targets) == 1 and isinstance(node.targets[0], ast.Name):
             c = copied(node.value)
+            v = node.value
             if c is not None:
                 copy_of[node.targets[0].id] = c
-            elif isinstance(node.value, ast.Tuple) and node.value.elts and all(copied(e) is not None for e in node.value.elts):
-                tuple_of[node.targets[0].id] = [copied(e) for e in node.value.elts]
+            elif isinstance(v, ast.Tuple) and v.elts and all(copied(e) is not None for e in v.elts):
+                tuple_of[node.targets[0].id] = [copied(e) for e in v.elts]
+            elif call_name(v) == "tuple" and len(v.args) == 1 and isinstance(v.args[0], (ast.GeneratorExp, ast.ListComp)) \
+                    and len(v.args[0].generators) == 1 and not v.args[0].generators[0].ifs \
+                    and isinstance(v.args[0].generators[0].target, ast.Name) and copied(v.args[0].elt) == v.args[0].generators[0].target.id \
+                    and (ast.unparse(v.args[0].generators[0].iter) in whole or call_name(v.args[0].generators[0].iter) == "get_shape_memo"):
+                # `tuple(m.copy() for m in memos)` with `memos = get_shape_memo()`: a copy of each of the four
+                tuple_of[node.targets[0].id] = ["memo0", "memo1", "memo2", "memo3"]
 
     def restored(call):
         """the distinct dictionaries a set_shape_memo call puts back from copies"""
@@ -123,6 +132,11 @@ def rollback_fact(fn: ast.FunctionDef, inner_call: str):
     for node in ast.walk(fn):
         if isinstance(node, ast.ExceptHandler):
             in_handler.update(id(n) for n in ast.walk(node))
+    # ... or, at the top level of the function after the try, before the final `return`
+    for i, st in enumerate(fn.body):
+        if isinstance(st, ast.Expr) and call_name(st.value) == "set_shape_memo" and len(restored(st.value)) == 4 \
+                and any(isinstance(p, ast.Try) and calls_in(p.body, inner_call) for p in fn.body[:i]) and any(isinstance(n, ast.Return) for n in fn.body[i + 1:]):
+            fact["false_path_restores"] = True
     for node in ast.walk(fn):
         if isinstance(node, ast.If) and id(node) not in in_handler:
             for branch in (node.body, node.orelse):
@@ -130,6 +144,35 @@ def rollback_fact(fn: ast.FunctionDef, inner_call: str):
                 if sets and all(len(restored(c)) == 4 for c in sets):
                     fact["false_path_restores"] = True
     return fact
+
+
+def module_constants(tree):
+    """module-level names bound exactly once to a literal constant and never rebound through `global`"""
+    counts, vals = {}, {}
+    for n in tree.body:
+        if isinstance(n, ast.Assign) and len(n.targets) == 1 and isinstance(n.targets[0], ast.Name):
+            counts[n.targets[0].id] = counts.get(n.targets[0].id, 0) + 1
+            if isinstance(n.value, ast.Constant):
+                vals[n.targets[0].id] = n.value
+    rebound = {nm for n in ast.walk(tree) if isinstance(n, ast.Global) for nm in n.names}
+    return {k: v for k, v in vals.items() if counts[k] == 1 and k not in rebound}
+
+
+class _ConstSubst(ast.NodeTransformer):
+    def __init__(self, env):
+        self.env = env
+
+    def visit_Name(self, node):
+        if isinstance(node.ctx, ast.Load) and node.id in self.env:
+            return ast.Constant(self.env[node.id].value)
+        return node
+
+
+def with_constants(node, env):
+    """a copy of `node` with module-level constants written out"""
+    import copy
+
+    return ast.fix_missing_locations(_ConstSubst(env).visit(copy.deepcopy(node)))
 
 
 def walk_with_helpers(fn, tree):
@@ -219,8 +262,11 @@ def run():
     facts = {}
     arr = parse("_array_types.py")
     pyt = parse("_pytree_type.py")
-    facts["array_rollback"] = rollback_fact(find_def(arr, "_MetaAbstractArray", "__instancecheck_str__"), "_check_shape")
-    facts["pytree_rollback"] = rollback_fact(find_def(pyt, "_MetaPyTree", "__instancecheck__"), "_check")
+    from inline import inline_helpers
+
+    facts["array_rollback"] = rollback_fact(inline_helpers(find_def(arr, "_MetaAbstractArray", "__instancecheck_str__"), arr, find_def(arr, "_MetaAbstractArray"),
+                                                           exclude=("_check_shape", "_check_dims")), "_check_shape")
+    facts["pytree_rollback"] = rollback_fact(inline_helpers(find_def(pyt, "_MetaPyTree", "__instancecheck__"), pyt, find_def(pyt, "_MetaPyTree"), exclude=("_check",)), "_check")
     cells, users = storage_kinds()
     facts["storage_cells"] = cells
     facts["storage_users"] = users
@@ -250,6 +296,11 @@ def guarded_by_structure(call, root, fn=None):
                 for sub in ast.walk(ch):
                     if sub is call:
                         return True
+        if isinstance(node, ast.If) and ast.unparse(node.test) == "cls.structure is None":
+            for ch in node.orelse:
+                for sub in ast.walk(ch):
+                    if sub is call:
+                        return True
     if fn is not None:
         for i, st in enumerate(fn.body):
             if isinstance(st, ast.If) and ast.unparse(st.test) == "cls.structure is None" and st.body and isinstance(st.body[-1], ast.Return) and not st.orelse:
@@ -261,8 +312,11 @@ def guarded_by_structure(call, root, fn=None):
 
 
 def pytree_skel(facts):
+    from inline import inline_helpers
+
     pyt = parse("_pytree_type.py")
-    chk = find_def(pyt, "_MetaPyTree", "_check")
+    # seen through helper functions: `_check` with its statement-level helper calls inlined
+    chk = inline_helpers(find_def(pyt, "_MetaPyTree", "_check"), pyt, find_def(pyt, "_MetaPyTree"))
     sk = {"flattenInFinally": "unknown", "flattenRestores": "unknown", "treepathInFinally": "unknown", "treepathGuarded": "unknown",
           "flattenPassesIsLeaf": False}
     facts["pytree_skel"] = sk
@@ -270,7 +324,7 @@ def pytree_skel(facts):
         return
     # every flattening of the checked object asks `is_leaf` at every node: the keyword is a name that is only ever bound to
     # a function defined in `_check` (or to another such name), never to None or to a conditional expression
-    fdefs = {n.name for n in ast.walk(chk) if isinstance(n, ast.FunctionDef) and n is not chk}
+    fdefs = {n.name for n in ast.walk(chk) if isinstance(n, ast.FunctionDef) and n is not chk} | {n.name for n in pyt.body if isinstance(n, ast.FunctionDef)}
     aliases = {}
     for n in ast.walk(chk):
         if isinstance(n, ast.Assign):
@@ -314,9 +368,9 @@ def pytree_skel(facts):
             sk["treepathInFinally"] = bool(fin)
             inner = calls_in(node.body, "clear_treepath_memo")
             allc = fin + inner
-            if allc and all(guarded_by_structure(c, node, chk) for c in allc):
+            if allc and all(guarded_by_structure(c, node, chk) or guarded_by_structure(c, chk, chk) for c in allc):
                 sk["treepathGuarded"] = True
-            elif allc and not any(guarded_by_structure(c, node, chk) for c in allc):
+            elif allc and not any(guarded_by_structure(c, node, chk) or guarded_by_structure(c, chk, chk) for c in allc):
                 sk["treepathGuarded"] = False
     # flatten try not found at all
     if sk["flattenInFinally"] == "unknown" and calls_in([chk], "set_treeflatten_memo"):
@@ -392,7 +446,9 @@ def decorator_skel(facts):
             ok = ok and first is not None and handler_class(first) == "AnnotationError" and any(isinstance(s, ast.Raise) and s.exc is None for s in first.body)
             ok = ok and any(handler_class(h) == "Exception" for h in hs[1:])
         w["annErrFirst"] = ok
-        ss = calls_in([impl_fn], "shape_str")
+        # the message text may be assembled by module-level helpers called from the handlers
+        ss = calls_in([impl_fn], "shape_str") + [c for hname in {call_name(c) for c in ast.walk(impl_fn) if isinstance(c, ast.Call) and isinstance(c.func, ast.Name)}
+                                                  for hd in [find_def(dec, hname)] if hd is not None and isinstance(hd, ast.FunctionDef) for c in calls_in([hd], "shape_str")]
         if ss and all(len(c.args) == 1 and call_name(c.args[0]) == "get_shape_memo" for c in ss):
             w["messageCurrent"] = True
         elif ss and all(len(c.args) == 1 and isinstance(c.args[0], ast.Name) for c in ss):
@@ -569,7 +625,7 @@ def dtype_tables(facts):
             if isinstance(node, ast.If):
                 if "np" in names_in(node.test) and "kind" in names_in(node.test) and "dtype" in names_in(node.test):
                     for st in node.body:
-                        if isinstance(st, ast.Assign) and isinstance(st.value, ast.Attribute) and st.value.attr == "name":
+                        if isinstance(st, (ast.Assign, ast.Return)) and isinstance(st.value, ast.Attribute) and st.value.attr == "name":
                             canonical = True
     facts["np_canonical_name"] = canonical
     # how the name is cut out of repr(obj.dtype) for dtype objects that are neither NumPy-like nor strings
@@ -631,7 +687,7 @@ EXTRA_RENDERERS.append(render_dtypes)
 # --------------------------------------------------------------------------- import hook facts (C10 / C11 / C18)
 
 
-def import_rule(vm):
+def import_rule(vm, tree=None):
     """`visit_Module`: where `import jaxtyping` goes. The loop body is run abstractly on the five kinds of statement it can
     tell apart (`from __future__ import`, another `from` import, an expression statement holding a constant, another
     expression statement, anything else); the rule is "before-first-non-prologue" when the first two... the first and the
@@ -664,6 +720,10 @@ def import_rule(vm):
             return isinstance(e.op, ast.And)
         if isinstance(e, ast.UnaryOp) and isinstance(e.op, ast.Not):
             return not ev(e.operand, kind, env)
+        if isinstance(e, ast.Call) and isinstance(e.func, ast.Name) and e.func.id in preds and [ast.unparse(a) for a in e.args] == [var] and not e.keywords:
+            # a module-level predicate applied to the statement: run its body on the same kind of statement
+            h = preds[e.func.id]
+            return run_pred(h, kind)
         if call_name(e) == "isinstance" and len(e.args) == 2 and ast.unparse(e.args[1]).startswith("ast."):
             want = ast.unparse(e.args[1])[4:]
             if ast.unparse(e.args[0]) == var:
@@ -676,6 +736,34 @@ def import_rule(vm):
             r = module == e.comparators[0].value
             return r if isinstance(e.ops[0], ast.Eq) else not r
         raise Unknown
+
+    preds = {n.name: n for n in (tree.body if tree is not None else []) if isinstance(n, ast.FunctionDef) and len(n.args.args) == 1}
+
+    def run_pred(h, kind):
+        nonlocal var
+        saved, var = var, h.args.args[0].arg
+        try:
+            def go(stmts):
+                for st in stmts:
+                    if isinstance(st, ast.Expr) and isinstance(st.value, ast.Constant):
+                        continue
+                    if isinstance(st, ast.Return):
+                        if isinstance(st.value, ast.Constant) and isinstance(st.value.value, bool):
+                            return st.value.value
+                        return ev(st.value, kind, {})
+                    if isinstance(st, ast.If):
+                        r = go(st.body if ev(st.test, kind, {}) else st.orelse)
+                        if r is not None:
+                            return r
+                        continue
+                    raise Unknown
+                return None
+            r = go(h.body)
+            if r is None:
+                raise Unknown
+            return r
+        finally:
+            var = saved
 
     def run(stmts, kind, env, acts):
         for st in stmts:
@@ -721,6 +809,18 @@ def import_rule(vm):
     return "unknown"
 
 
+def is_cache_patch(e, cls):
+    """`patch("importlib._bootstrap_external.cache_from_source", ...)`, written out or returned by a method of the loader"""
+    if call_name(e) == "patch" and "cache_from_source" in ast.dump(e):
+        return True
+    if isinstance(e, ast.Call) and isinstance(e.func, ast.Attribute) and isinstance(e.func.value, ast.Name) and e.func.value.id == "self" and not e.args:
+        m = find_def(cls, e.func.attr)
+        if m is not None:
+            rets = [r for r in ast.walk(m) if isinstance(r, ast.Return)]
+            return len(rets) == 1 and call_name(rets[0].value) == "patch" and "cache_from_source" in ast.dump(rets[0].value)
+    return False
+
+
 def hook_facts(facts):
     tree = parse("_import_hook.py")
     h = {
@@ -761,7 +861,7 @@ def hook_facts(facts):
         h["defDecorator"], h["classDecorator"], h["copiesLocation"] = d, k, c1 and c2
         vm = find_def(tr, "visit_Module")
         if vm is not None:
-            h["importRule"] = import_rule(vm)
+            h["importRule"] = import_rule(vm, tree)
     # the loader's two `compile` calls do not inherit `from __future__` flags of the hook's own module: each passes
     # `dont_inherit=True` (directly or through a `**options` dict literal holding it), or the hook module has no such import
     stc = find_def(tree, "_JaxtypingLoader", "source_to_code")
@@ -787,10 +887,18 @@ def hook_facts(facts):
     # value names the bytecode file
     tcc = find_def(tree, "Typechecker")
     if tcc is not None:
-        ga, init_, gh = find_def(tcc, "get_ast"), find_def(tcc, "__init__"), find_def(tcc, "get_hash")
+        from inline import inline_helpers
+
+        env = module_constants(tree)
+        ga, gh = find_def(tcc, "get_ast"), find_def(tcc, "get_hash")
+        init_ = find_def(tcc, "__init__")
+        init_ = with_constants(inline_helpers(init_, tree, tcc), env) if init_ is not None else None
         emb = False
         if ga is not None:
-            for js in [n for n in ast.walk(ga) if isinstance(n, ast.JoinedStr)]:
+            scope_fns = [ga] + [find_def(tcc, c.func.attr) for c in ast.walk(ga) if isinstance(c, ast.Call) and isinstance(c.func, ast.Attribute)
+                                and isinstance(c.func.value, ast.Name) and c.func.value.id == "self" and find_def(tcc, c.func.attr) is not None]
+            # a local f-string holding the lookup expression may be embedded into the decorator text: join them
+            for js in [n for f_ in scope_fns for n in ast.walk(f_) if isinstance(n, ast.JoinedStr)]:
                 for a, b, c in zip(js.values, js.values[1:], js.values[2:]):
                     if isinstance(a, ast.Constant) and str(a.value).endswith("Typechecker.lookup['") and isinstance(b, ast.FormattedValue) \
                             and ast.unparse(b.value) == "self.hash" and b.format_spec is None and b.conversion == -1 \
@@ -854,30 +962,47 @@ def hook_facts(facts):
         for m in ld.body:
             if isinstance(m, ast.FunctionDef):
                 for w in ast.walk(m):
-                    if isinstance(w, ast.With) and any(call_name(it.context_expr) == "patch" and "cache_from_source" in ast.dump(it.context_expr) for it in w.items):
+                    if isinstance(w, ast.With) and any(is_cache_patch(it.context_expr, ld) for it in w.items):
                         scopes.append(m.name)
         if len(scopes) == 1 and scopes[0] in ("get_code", "exec_module"):
             h["patchScope"] = scopes[0]
             # every way out of the method must lie inside the `with patch(...)`: an early `return` in front of it (say,
             # when no bytecode is going to be written) leaves a path on which the interpreter's own cache name is used
             m = find_def(ld, scopes[0])
-            withs = [w for w in ast.walk(m) if isinstance(w, ast.With) and any(call_name(it.context_expr) == "patch" for it in w.items)]
+            withs = [w for w in ast.walk(m) if isinstance(w, ast.With) and any(is_cache_patch(it.context_expr, ld) for it in w.items)]
             inside = {id(n) for w in withs for n in ast.walk(w)}
             if any(isinstance(n, ast.Return) and id(n) not in inside for n in ast.walk(m)):
                 outside = [n for n in ast.walk(m) if isinstance(n, ast.If) and id(n) not in inside and any(isinstance(r, ast.Return) for r in ast.walk(n))]
                 h["patchScope"] = "get_code_if_writing" if any("dont_write_bytecode" in ast.unparse(n.test) for n in outside) else scopes[0] + "_conditional"
     oc = find_def(tree, "_optimized_cache_from_source")
     if oc is not None:
+        env = module_constants(tree)
+        local_js = {n.targets[0].id: n.value for n in ast.walk(oc) if isinstance(n, ast.Assign) and len(n.targets) == 1 and isinstance(n.targets[0], ast.Name)
+                    and isinstance(n.value, ast.JoinedStr)}
         for c in ast.walk(oc):
-            if isinstance(c, ast.keyword) and c.arg == "optimization" and isinstance(c.value, ast.JoinedStr):
-                parts = c.value.values
-                consts = "".join(p.value for p in parts if isinstance(p, ast.Constant))
-                fmt = [p for p in parts if isinstance(p, ast.FormattedValue)]
+            if isinstance(c, ast.keyword) and c.arg == "optimization":
+                val = c.value
+                if isinstance(val, ast.Name) and val.id in local_js:
+                    val = local_js[val.id]      # `tag = f"..."` then `optimization=tag`
+                if not isinstance(val, ast.JoinedStr):
+                    continue
+                # literal text with module-level integer constants written out; what remains formatted is the hash
+                text, fmt = "", []
+                for p_ in val.values:
+                    if isinstance(p_, ast.Constant):
+                        text += str(p_.value)
+                    elif isinstance(p_, ast.FormattedValue) and isinstance(p_.value, ast.Name) and p_.value.id in env \
+                            and isinstance(env[p_.value.id].value, int) and p_.format_spec is None and p_.conversion == -1:
+                        text += str(env[p_.value.id].value)
+                    else:
+                        fmt.append(p_)
+                        text += "{}"
                 import re as _re
-                m = _re.fullmatch(r"jaxtyping(\d+)", consts)
+                m = _re.fullmatch(r"jaxtyping(\d+)\{\}", text)
                 if m:
                     h["tagVersion"] = int(m.group(1))
-                h["tagHasChecker"] = len(fmt) == 1 and isinstance(fmt[0].value, ast.Name) and fmt[0].value.id == "typechecker_hash"
+                h["tagHasChecker"] = bool(m) and len(fmt) == 1 and isinstance(fmt[0].value, ast.Name) and fmt[0].value.id == "typechecker_hash" \
+                    and fmt[0].format_spec is None and fmt[0].conversion == -1
 
 
 def render_hook(facts):
@@ -923,12 +1048,36 @@ def _src(node):
 
 
 def scalar_table(helper):
+    return _scalar_table(helper)
+
+
+scalar_table.module_body = None
+
+
+def _scalar_table(helper):
     """`def f(t): if t is X [or t is Y]: return "<prefix>" ... return None` -> [(X, prefix), ...] in source order, or None"""
     if len(helper.args.args) != 1:
         return None
     a = helper.args.args[0].arg
     rows = []
     body = [s for s in helper.body if not (isinstance(s, ast.Expr) and isinstance(s.value, ast.Constant))]
+    # a leading `for t, p in TABLE: if <param> is t: return p` over a module-level table of (type, prefix) pairs
+    unrolled = []
+    tables = {n.targets[0].id: n.value for n in (scalar_table.module_body or []) if isinstance(n, ast.Assign) and len(n.targets) == 1
+              and isinstance(n.targets[0], ast.Name) and isinstance(n.value, (ast.Tuple, ast.List))}
+    while body and isinstance(body[0], ast.For):
+        lp = body[0]
+        if not (isinstance(lp.target, ast.Tuple) and len(lp.target.elts) == 2 and all(isinstance(e, ast.Name) for e in lp.target.elts)
+                and isinstance(lp.iter, ast.Name) and lp.iter.id in tables and not lp.orelse and len(lp.body) == 1 and isinstance(lp.body[0], ast.If)
+                and not lp.body[0].orelse and _src(lp.body[0].test) == f"{a} is {lp.target.elts[0].id}"
+                and [_src(x) for x in lp.body[0].body] == [f"return {lp.target.elts[1].id}"]):
+            return None
+        for row in tables[lp.iter.id].elts:
+            if not (isinstance(row, ast.Tuple) and len(row.elts) == 2 and isinstance(row.elts[1], ast.Constant) and isinstance(row.elts[1].value, str)):
+                return None
+            unrolled.append((_src(row.elts[0]), row.elts[1].value))
+        body = body[1:]
+    rows.extend(unrolled)
     stmts = []
     for st in body:       # flatten an if/elif chain into a sequence of ifs
         while isinstance(st, ast.If):
@@ -963,6 +1112,7 @@ def make_facts(facts):
           "stripsDimStr": False, "aliases": [], "sentinelsByReference": False}
     facts["make"] = mk
     fn = find_def(tree, "_make_array_cached")
+    scalar_table.module_body = tree.body
     if fn is not None:
         for node in ast.walk(fn):
             if isinstance(node, ast.If):
